@@ -78,6 +78,17 @@ func zzWriteRevisionCounter(r *Replica, counter int64) error {
 	return nil
 }
 
+// (*Server).isExtentSupported probes FIEMAP on a temp file: environment, may fail
+func zzIsExtentSupported(s *Server) error {
+	if zzNondetBool("extents.unsupported") {
+		return zzErr("zz: underlying file system does not support extent mapping")
+	}
+	return nil
+}
+
+// (*Server).initUUID derives a UUID with crypto/sha1 and rewrites volume.meta
+func zzInitUUID(s *Server) error { return nil }
+
 type zzError struct{ s string }
 
 func (e *zzError) Error() string { return e.s }
